@@ -382,4 +382,146 @@ theorem turn_runs (s : Setup) (hwf : s.WF) (o : OptsT) (user : String) (bot : Op
         simpa [specTrace, hrun, hl, oneFlow] using this
 
 
+
+/-! ### the specification side is `PipelineOpts.turn` -/
+
+open PipelineOpts in
+theorem runRails_spec (c : OptGuard.Cat) : ∀ (rs : List IRail) (k : Nat) (t : String),
+    (runRails c k (rs.map toRail) t).1.filterMap obsOfStep = (loopSpec (catName c) k rs t).1 ∧
+    (match (loopSpec (catName c) k rs t).2 with
+     | some t' => (runRails c k (rs.map toRail) t).2.2 = .passed t'
+     | none => ∃ n, (runRails c k (rs.map toRail) t).2.2 = .blocked n)
+  | [], k, t => ⟨rfl, rfl⟩
+  | r :: rs, k, t => by
+    obtain ⟨ih1, ih2⟩ := runRails_spec c rs (k + 1) t
+    cases hk : r.kind with
+    | check a =>
+      by_cases ha : a t = true
+      · simp only [List.map, runRails, toRail, hk, ha, if_true, loopSpec]
+        exact ⟨by simp [List.filterMap, obsOfStep, ih1], ih2⟩
+      · have ha' : a t = false := by simpa using ha
+        simp only [List.map, runRails, toRail, hk, ha', loopSpec]
+        exact ⟨by simp [List.filterMap, obsOfStep], ⟨_, rfl⟩⟩
+    | rewrite f =>
+      obtain ⟨jh1, jh2⟩ := runRails_spec c rs (k + 1) (f t)
+      simp only [List.map, runRails, toRail, hk, loopSpec]
+      exact ⟨by simp [List.filterMap, obsOfStep, jh1], jh2⟩
+
+
+theorem sel_map (o : OptsT) : PipelineOpts.sel (o.map mkOpts) .input = selI o ∧ PipelineOpts.sel (o.map mkOpts) .dialog = selD o ∧
+    PipelineOpts.sel (o.map mkOpts) .output = selO o := by
+  rcases o with _ | ⟨i, d, r, ou⟩ <;> exact ⟨rfl, rfl, rfl⟩
+
+open PipelineOpts in
+theorem pbm_spec (s : Setup) (o : OptsT) (bm : String) :
+    (processBotMessageR (toCfg s) (o.map mkOpts) false bm).trace.filterMap obsOfStep = pbmSpec s o bm := by
+  obtain ⟨_, _, hso⟩ := sel_map o
+  have hf : (toCfg s).hasFlows .output = !s.output.isEmpty := by simp [Cfg.hasFlows, toCfg]
+  have hr : (toCfg s).hasFlows .retrieval = false := by simp [Cfg.hasFlows, toCfg]
+  unfold processBotMessageR pbmSpec
+  simp only [Bool.false_eq_true, if_false, hf, hso]
+  cases hrun : (!s.output.isEmpty && selO o)
+  · simp [obsOfStep]
+  · simp only [if_true, outputPhaseR]
+    obtain ⟨h1, h2⟩ := runRails_spec .output s.output 0 bm
+    have hcfg : (toCfg s).output = s.output.map toRail := rfl
+    rw [hcfg]
+    cases hl : (loopSpec "output" 0 s.output bm).2 with
+    | some t =>
+      have h2' : (runRails .output 0 (s.output.map toRail) bm).2.2 = .passed t := by
+        have := h2; simp only [catName, hl] at this; exact this
+      rcases hrr : runRails .output 0 (s.output.map toRail) bm with ⟨tr, lg, oc⟩
+      rw [hrr] at h1 h2'
+      simp only at h2'; subst h2'
+      simp only [catName] at h1
+      simp [List.filterMap_append, h1, obsOfStep]
+    | none =>
+      have h2' : ∃ n, (runRails .output 0 (s.output.map toRail) bm).2.2 = .blocked n := by
+        have := h2; simp only [catName, hl] at this; exact this
+      obtain ⟨n, hn⟩ := h2'
+      rcases hrr : runRails .output 0 (s.output.map toRail) bm with ⟨tr, lg, oc⟩
+      rw [hrr] at h1 hn
+      simp only at hn; subst hn
+      simp only [catName] at h1
+      have he : (toCfg s).exceptions = false := rfl
+      have hrf : (toCfg s).refusal = s.refusal := rfl
+      simp [Out.prepend, blockedTailR, he, botIntentSegR, retrievalPartR, hr, List.filterMap_append, h1, obsOfStep, hrf]
+
+
+open PipelineOpts in
+theorem after_spec (s : Setup) (o : OptsT) (um : String) (bot : Option String) (hb : BotOK o bot) :
+    (afterInputR (toCfg s) (o.map mkOpts) um bot (.general s.llmText)).trace.filterMap obsOfStep = afterSpec s o um bot := by
+  obtain ⟨_, hsd, hso⟩ := sel_map o
+  unfold afterInputR afterSpec
+  simp only [hsd, hso]
+  cases hd : selD o
+  · cases ho : selO o
+    · simp [obsOfStep]
+    · obtain ⟨b, rfl⟩ : ∃ b, bot = some b := Option.isSome_iff_exists.mp (hb hd ho)
+      simp [pbm_spec]
+  · simp [Out.prepend, obsOfStep, pbm_spec]
+
+open PipelineOpts in
+/-- the specification trace IS the trace of `PipelineOpts.turn` with the guards of the current llm_flows.co -/
+theorem specTrace_eq_turn (s : Setup) (o : OptsT) (user : String) (bot : Option String) (hb : BotOK o bot) :
+    turnTrace s o user bot = some (specTrace s o user bot) := by
+  obtain ⟨hsi, _, _⟩ := sel_map o
+  unfold turnTrace
+  rw [turn_eq, Option.map_some]
+  congr 1
+  have hf : (toCfg s).hasFlows .input = !s.input.isEmpty := by simp [Cfg.hasFlows, toCfg]
+  have hr : (toCfg s).hasFlows .retrieval = false := by simp [Cfg.hasFlows, toCfg]
+  unfold turnCoreR specTrace
+  simp only [hf, hsi]
+  cases hrun : (!s.input.isEmpty && selI o)
+  · simp [Out.prepend, after_spec s o user bot hb]
+  · simp only [if_true]
+    obtain ⟨h1, h2⟩ := runRails_spec .input s.input 0 user
+    have hcfg : (toCfg s).input = s.input.map toRail := rfl
+    rw [hcfg]
+    cases hl : (loopSpec "input" 0 s.input user).2 with
+    | some t =>
+      have h2' : (runRails .input 0 (s.input.map toRail) user).2.2 = .passed t := by
+        have := h2; simp only [catName, hl] at this; exact this
+      rcases hrr : runRails .input 0 (s.input.map toRail) user with ⟨tr, lg, oc⟩
+      rw [hrr] at h1 h2'
+      simp only at h2'; subst h2'
+      simp only [catName] at h1
+      simp [Out.prepend, List.filterMap_append, h1, after_spec s o t bot hb]
+    | none =>
+      have h2' : ∃ n, (runRails .input 0 (s.input.map toRail) user).2.2 = .blocked n := by
+        have := h2; simp only [catName, hl] at this; exact this
+      obtain ⟨n, hn⟩ := h2'
+      rcases hrr : runRails .input 0 (s.input.map toRail) user with ⟨tr, lg, oc⟩
+      rw [hrr] at h1 hn
+      simp only at hn; subst hn
+      simp only [catName] at h1
+      have he : (toCfg s).exceptions = false := rfl
+      have hrf : (toCfg s).refusal = s.refusal := rfl
+      simp [Out.prepend, blockedTailR, he, botIntentSegR, retrievalPartR, hr, List.filterMap_append, h1, obsOfStep, hrf]
+
+/-- trace of the `generate_events` loop with `fuel` iterations allowed -/
+def driveTraceN (fuel : Nat) (s : Setup) (o : OptsT) (user : String) (bot : Option String) : Option (List Obs) :=
+  match drive s (s.cfgs base) s.config fuel (initialHistory o user bot) [] with
+  | .done tr _ => some tr
+  | _ => none
+
+/-- **`pipeline_refines_interp`** -/
+theorem refines (s : Setup) (hwf : s.WF) (o : OptsT) (user : String) (bot : Option String) (hb : BotOK o bot) :
+    ∃ N, ∀ fuel, N ≤ fuel → driveTraceN fuel s o user bot = turnTrace s o user bot := by
+  obtain ⟨st, hrep, hruns⟩ := turn_runs s hwf o user bot hb
+  rw [← s.cfgs_eq] at hrep hruns
+  have hH : NoHide (initialHistory o user bot) := by
+    apply noHide_of_B
+    rcases o with _ | ⟨i, d, r, ou⟩ <;> rcases bot with _ | b <;> rfl
+  have hs : isStop (initialHistory o user bot) = false := by
+    unfold initialHistory
+    exact isStop_cons_other _ _ _
+  obtain ⟨N, hN⟩ := drive_of_runs s (s.cfgs base) s.config st _ hruns (initialHistory o user bot) [] hH hrep hs
+  refine ⟨N, fun fuel hf => ?_⟩
+  obtain ⟨H', hd⟩ := hN fuel hf
+  rw [specTrace_eq_turn s o user bot hb]
+  simp [driveTraceN, hd]
+
+
 end NemoVerif.RailsInterp
